@@ -77,7 +77,7 @@ class Fn:
     def __init__(s, name, ins, outs, body): s.name = name; s.ins = ins; s.outs = outs; s.body = body
     def proto(s):
         ps = ['const %s* %s' % (c, 'abcdefgh'[i]) for i, (c, n) in enumerate(s.ins)]
-        ps += ['%s* %s' % (c, ['o', 'o2', 'o3', 'o4'][i]) for i, (c, n) in enumerate(s.outs)]
+        ps += ['%s* %s' % (c, (['o'] + ['o%d' % k for k in range(2, 13)])[i]) for i, (c, n) in enumerate(s.outs)]
         return 'W w_%s(%s)' % (s.name, ', '.join(ps))
 
 class Unit:
@@ -441,6 +441,23 @@ def _cone_of_influence(asserts):
             if i not in keep and (v & cur): keep.add(i); cur |= v; changed = True
     return [a for i, a in enumerate(asserts) if i in keep]
 
+def abstract_fp(terms):
+    """Replace every maximal non-FP sub-term that has a floating-point argument (fp.lt, fp.isNaN, fp.to_sbv, to_ieee_bv ...) by a fresh constant of
+    its sort, consistently over all the given terms.  The result over-approximates the original (every model of the original induces a model of the
+    abstraction), so `unsat` of the abstraction implies `unsat` of the original; used for index / offset obligations whose truth does not depend on
+    the floating-point values."""
+    def isfp(srt): return srt.kind() in (z3.Z3_FLOATING_POINT_SORT, z3.Z3_ROUNDING_MODE_SORT)
+    seen = set(); subs = []; stack = list(terms)
+    while stack:
+        t = stack.pop(); k = t.get_id()
+        if k in seen: continue
+        seen.add(k)
+        if not z3.is_app(t) or t.num_args() == 0: continue
+        ch = t.children()
+        if not isfp(t.sort()) and any(isfp(c.sort()) for c in ch): subs.append((t, z3.FreshConst(t.sort(), 'absfp'))); continue
+        stack.extend(ch)
+    return [z3.substitute(t, *subs) if subs else t for t in terms], len(subs)
+
 class Rec(dict): pass
 
 class Session:
@@ -558,7 +575,7 @@ class Session:
 
     # -- the main entry: check a function of the real code against a spec, with replay and known-findings handling
     def check_fn(s, unit, fname, spec, pre=None, *, mode='fp', unwind=16, timeout=None, solver='z3', name=None, bounds='',
-                 validate=None, side=True, known=(), witness=True, mutant=None, ins=None, ubsan=False, opt='-O1', extra_hyps=None, mandatory=True, ex=None):
+                 validate=None, side=True, known=(), witness=True, mutant=None, ins=None, ubsan=False, opt='-O1', extra_hyps=None, mandatory=True, ex=None, assume_asserts=False):
         """spec(ins, outs) -> Bool | [(label, Bool)] ; pre(ins) -> Bool | [Bool]
         side=True: also discharge the executor's own obligations (unwinding, traps, UB, domain) under pre.
         """
@@ -578,6 +595,10 @@ class Session:
         hyps += list(p)
         if extra_hyps: hyps += list(extra_hyps(res))
         hyps += res.axioms
+        n_asserted = 0
+        if assume_asserts:      # glm's own assert()s are documented preconditions: a failing assert aborts with a diagnostic (not UB); assume every one holds
+            for kind, cond, d in res.obligations:
+                if kind == 'trap' and '__assert_fail' in d: hyps.append(z3.Not(cond)); n_asserted += 1
         # pins (replay mode): fix inputs to recorded values
         pin = s.pins.get(name)
         if pin:
@@ -606,9 +627,17 @@ class Session:
         if side:
             groups = {}
             for kind, cond, d in res.obligations:
+                if assume_asserts and kind == 'trap' and '__assert_fail' in d: continue
                 if ubsan and kind == 'unreachable': continue      # clang emits 'unreachable' after every llvm.ubsantrap (already an obligation); genuine unreachables are instrumented as traps
                 groups.setdefault((kind, d), []).append(cond)
             for (kind, d), conds in groups.items():
+                if kind == 'oob' and not known and mode != 'real':      # index / offset obligations: first with every floating-point atom abstracted to a fresh constant (sound over-approximation)
+                    at, nsub = abstract_fp(list(hyps) + [z3.Or(*conds)])
+                    if nsub:
+                        r, m, dt, used = s.query(at, min(timeout or 30, 30), 'z3', allvars)
+                        if r == 'unsat':
+                            s.rec(name=name + '.%s[%s]' % (kind, d[:60]), kind=kind, functions=fnlist, bounds=binfo + '; floating-point atoms abstracted to fresh constants', solver=used, result=r, time_s=round(dt, 3), status='discharged', mandatory=mandatory)
+                            continue
                 s._prove_known(name + '.%s[%s]' % (kind, d[:60]), z3.Not(z3.Or(*conds)) if len(conds) > 1 else z3.Not(conds[0]), hyps, res, known, timeout=timeout, solver=solver, kind=kind, functions=fnlist, bounds=binfo, spec_fn=None, pre_fn=pre, unit=unit, fname=fname, mode=mode, vars_=allvars, mandatory=mandatory)
         goals = spec(res.ins, res.outs) if spec else []
         if not isinstance(goals, (list, tuple)): goals = [('spec', goals)]
